@@ -162,10 +162,58 @@ def check_doc(acc, job):
                     acc.violation(Viol('non-note-cell', 'differs-between-encodings', case, x, y))
 
 
+def check_ranges(acc, job):
+    """the same relations for measure-range exports (the option set of the property includes ranges)"""
+    m = D.materialise(job, with_key=False)
+    if m is None:
+        return
+    text = m.text()
+    try:
+        doc, errs = kp.loads(text)
+        M = doc.measures_count()
+    except Exception:
+        return
+    types = set(m.headers)
+    for a, b in sorted({(1, 1), (M, M), (1, M), (2 if M >= 2 else 1, M)}):
+        out = {}
+        for enc, ev in ENC.items():
+            acc.count('transitions')
+            try:
+                out[enc] = kp.dumps(doc, encoding=ev, from_measure=a, to_measure=b)
+            except Exception as e:  # noqa
+                out[enc] = e
+        case = {'text': text, 'headers': job[0], 'seq': job[1], 'seed': job[2], 'selection': 'all', 'from_measure': a, 'to_measure': b}
+        acc.count('traces')
+        if isinstance(out['ekern'], Exception):
+            continue      # C07 / C08 decide whether the range itself is exportable
+        for plain, ext in (('kern', 'ekern'), ('bkern', 'bekern'), ('akern', 'aekern')):
+            if isinstance(out[plain], Exception) or isinstance(out[ext], Exception):
+                if plain != 'akern' and isinstance(out[plain], Exception) != isinstance(out[ext], Exception):
+                    acc.violation(Viol(f'{plain}-vs-{ext}', 'one-raises-the-other-not', case, None, [repr(out[plain])[:80], repr(out[ext])[:80]]))
+                continue
+            ge, gp = grid(out[ext]), grid(out[plain])
+            exp = [[strip(c) for c in r] for r in ge]
+            if exp and exp[0] and all(c.startswith('**') for c in ge[0]):
+                exp[0] = ['**' + PREFIX[plain] + c[2 + len(PREFIX[ext]):] if c.startswith('**' + PREFIX[ext]) else c for c in ge[0]]
+            if exp != gp:
+                bad = next(((x, y) for ra, rb in zip(exp, gp) for x, y in zip(ra, rb) if x != y), (len(exp), len(gp)))
+                acc.violation(Viol(f'{plain}-vs-{ext}', 'plain-is-not-extended-minus-separators', case, bad[0], bad[1]))
+        for enc in ENC:
+            if isinstance(out[enc], Exception) or not out[enc]:
+                continue
+            first = out[enc].split('\n')[0].split('\t')
+            if all(c.startswith('**') for c in first):
+                bad = [c for c in first if not (c.startswith('**' + PREFIX[enc]) and '**' + c[2 + len(PREFIX[enc]):] in types)]
+                if bad:
+                    acc.violation(Viol('encoding-' + enc, 'header-is-not-prefix-plus-type', case, ['**' + PREFIX[enc] + t[2:] for t in sorted(types)], first))
+
+
 def _job(jobs):
     acc = Acc()
-    for j in jobs:
+    for k, j in enumerate(jobs):
         check_doc(acc, j)
+        if 'b' in j[1]:
+            check_ranges(acc, j)
     if jobs:
         m = D.materialise(jobs[len(jobs) // 2])
         if m is not None:
